@@ -174,6 +174,8 @@ fn main() {
             let rep = match prop.as_str() {
                 _ if engine == "e2e-batch" => e2e::replay_batch(leaked, case),
                 _ if engine == "e2e-height" => e2e::replay_height(case),
+                _ if engine == "e2e-poll" => e2e::replay_poll(case),
+                _ if engine == "e2e-isolation" => e2e::replay_isolation(case),
                 _ if engine == "e2e-config" => props::c19::replay(case),
                 _ if engine == "e2e-slow-pay" => e2e::replay_slow_pay(case),
                 _ if engine == "par" => props::par::replay(leaked, case),
